@@ -564,3 +564,112 @@ pub mod tree {
         }
     }
 }
+
+/// Row-version (tuple) entry points: build / add version / delete / trim history / decode for a snapshot.
+/// Logic-free plumbing over `storage::tuple::{TupleBuilder, Tuple, TupleReader}` and `Snapshot`.
+pub mod tuple {
+    use crate::{
+        multithreading::coordinator::Snapshot,
+        schema::{Column, Schema},
+        storage::tuple::{Row, Tuple, TupleBuilder, TupleReader, TupleRef},
+        types::{DataType, DataTypeKind},
+    };
+    use std::collections::{HashMap, HashSet};
+
+    /// A reader's snapshot, field by field as `Snapshot::new` takes them.
+    #[derive(Debug, Clone)]
+    pub struct Snap {
+        pub xid: u64,
+        pub xmin: u64,
+        pub xmax: Option<u64>,
+        pub active: Vec<u64>,
+        pub aborted: Vec<u64>,
+    }
+
+    impl Snap {
+        fn build(&self) -> Snapshot {
+            Snapshot::new(
+                self.xid,
+                self.xmin,
+                self.xmax,
+                self.active.iter().copied().collect::<HashSet<_>>(),
+                self.aborted.iter().copied().collect::<HashSet<_>>(),
+            )
+        }
+    }
+
+    pub struct Tup {
+        schema: Schema,
+        tuple: Tuple,
+    }
+
+    impl Tup {
+        /// `keys` and `values` give the column kinds; `row` holds the key values followed by the values.
+        pub fn build(keys: &[DataTypeKind], values: &[DataTypeKind], row: Vec<DataType>, xmin: u64) -> Result<Tup, String> {
+            let mut cols = Vec::new();
+            for (i, k) in keys.iter().enumerate() {
+                cols.push(Column::new_with_defaults(*k, &format!("k{i}")));
+            }
+            for (i, k) in values.iter().enumerate() {
+                cols.push(Column::new_with_defaults(*k, &format!("v{i}")));
+            }
+            let schema = Schema::new_table_with_num_keys(cols, keys.len());
+            let tuple = TupleBuilder::from_schema(&schema)
+                .build(&Row::new(row.into_boxed_slice()), xmin)
+                .map_err(|e| e.to_string())?;
+            Ok(Tup { schema, tuple })
+        }
+
+        /// New version: `modified` maps value index -> new value, written by transaction `xid`.
+        pub fn add_version(&mut self, modified: &HashMap<usize, DataType>, xid: u64) -> Result<(), String> {
+            self.tuple.add_version_with(modified, xid, &self.schema).map_err(|e| e.to_string())
+        }
+
+        pub fn delete(&mut self, xid: u64) -> Result<(), String> {
+            self.tuple.delete(xid).map_err(|e| e.to_string())
+        }
+
+        /// Trims history no reader at or above `oldest_active_xid` needs. Returns the bytes freed.
+        pub fn vacuum(&mut self, oldest_active_xid: u64) -> Result<usize, String> {
+            self.tuple.vaccum_with(oldest_active_xid, &self.schema).map_err(|e| e.to_string())
+        }
+
+        /// The row (keys then values) the snapshot is entitled to, or None.
+        pub fn decode(&self, snap: &Snap) -> Result<Option<Vec<DataType>>, String> {
+            let snapshot = snap.build();
+            let data = self.tuple.effective_data();
+            let layout = TupleReader::from_schema(&self.schema)
+                .parse_for_snapshot(data, &snapshot)
+                .map_err(|e| e.to_string())?;
+            match layout {
+                None => Ok(None),
+                Some(l) => TupleRef::new(data, l)
+                    .to_row_with(&self.schema)
+                    .map(|r| Some(r.into_inner().into_vec()))
+                    .map_err(|e| e.to_string()),
+            }
+        }
+
+        /// Serialized form as it is stored in a cell, and back.
+        pub fn to_bytes(&self) -> Vec<u8> {
+            let mut buf = vec![0u8; self.tuple.serialized_size()];
+            let n = self.tuple.write_to(&mut buf).unwrap_or(0);
+            buf.truncate(n);
+            buf
+        }
+
+        pub fn reload(&mut self) -> Result<(), String> {
+            let bytes = self.to_bytes();
+            self.tuple = Tuple::from_slice_unchecked(&bytes).map_err(|e| e.to_string())?;
+            Ok(())
+        }
+
+        pub fn num_versions(&self) -> Result<usize, String> {
+            self.tuple.num_versions_with(&self.schema).map_err(|e| e.to_string())
+        }
+
+        pub fn len(&self) -> usize {
+            self.tuple.len()
+        }
+    }
+}
